@@ -61,7 +61,8 @@ def check_sart_case(case, out):
     kind, n = case["kind"], case["n"]
     W, b = case["W"], case["b"]
     base = {"kind": kind, "W": W.tolist(), "b": b.tolist(), "guess": case["guess"].tolist() if isinstance(case["guess"], np.ndarray) else case["guess"],
-            "relaxation": case["relax"], "conv_tol": case["tol"], "max_iterations": case["maxit"]}
+            "relaxation": case["relax"], "conv_tol": case["tol"], "max_iterations": case["maxit"],
+            "passed_as": case.get("forms")}
     if kind == "csart":
         base.update({"laplacian": case["L"].tolist(), "beta_laplace": case["beta"]})
     out["n"] += 1
@@ -126,7 +127,8 @@ def check_lsq_case(case, rng, out):
     alpha = case.get("alpha", 0.0) if kind != "svd" else 0.0
     L = case.get("L") if kind != "svd" else None
     Lm = np.identity(n) if L is None else L
-    base = {"kind": kind, "W": W.tolist(), "b": b.tolist(), "alpha": alpha, "tikhonov_matrix": None if L is None else L.tolist()}
+    base = {"kind": kind, "W": W.tolist(), "b": b.tolist(), "alpha": alpha, "tikhonov_matrix": None if L is None else L.tolist(),
+            "passed_as": case.get("forms")}
     out["n"] += 1
     vmax_zero = not (max(b.max(), 0.0) != 0)
     if impl["status"] != "ok":
@@ -136,7 +138,7 @@ def check_lsq_case(case, rng, out):
     x = np.array(impl["x"])
     F = objective(W, b, alpha, Lm, x)
     sc = obj_scale(W, b, alpha, Lm, x)
-    tol = 1e-9 * sc
+    tol = (1e-5 if case.get("single") else 1e-9) * sc     # single precision inside the implementation for float32 (svd: also uint8/bool) input
     C = np.vstack([W, alpha * Lm])
     d = np.concatenate([b, np.zeros(n)])
     comps = []
